@@ -1853,6 +1853,7 @@ func (m *repoManager) newVersion(parent dvid.UUID, note string, branchname strin
 		}
 		r.RUnlock()
 	}
+	dvid.VerifPoint("yield:datastore.newVersion:after-branch-check")
 
 	// Add the child node.  Since it's new and unavailable, no need to lock it.
 	childUUID, childV, err := m.newUUID(assign)
@@ -1875,6 +1876,7 @@ func (m *repoManager) newVersion(parent dvid.UUID, note string, branchname strin
 	m.repoMutex.Lock()
 	m.repos[childUUID] = r
 	m.repoMutex.Unlock()
+	dvid.VerifPoint("yield:datastore.newVersion:before-append-child")
 
 	node.children = append(node.children, childV)
 	node.updated = time.Now()
@@ -2186,6 +2188,7 @@ func (m *repoManager) newData(uuid dvid.UUID, t TypeService, name dvid.InstanceN
 		return nil, fmt.Errorf("Data named %q already exists in repo (root %s)", name, r.uuid)
 	}
 	r.RUnlock()
+	dvid.VerifPoint("yield:datastore.newData:after-name-check")
 
 	dataservice, err := t.NewDataService(uuid, id, name, c)
 	if err != nil {
